@@ -1132,29 +1132,35 @@ func (r *lmRun) doReset() {
 	r.fitKey, _, _ = r.fitState(after.zone)
 }
 
-// sampleSameState replays the operations before idx on a fresh allocator and asks it 24 times for an offer for the
-// identical request. More than one distinct answer at one and the same state = ":nondeterministic-at-same-state".
+// sampleSameState asks 24 FRESH allocators, each driven through the operations before idx, for ONE offer for the
+// identical request (one call per allocator: whatever a GetOffer may leave behind cannot influence the sample). More
+// than one distinct answer at one and the same state = ":nondeterministic-at-same-state".
 func (r *lmRun) sampleSameState(idx int, op *lmOp, canonBefore string) string {
-	t := lmNewRun(r.ctx, r.cs, true)
-	if t == nil {
-		return ""
-	}
-	t.twin = true
-	for i := 0; i < idx && !t.aborted; i++ {
-		t.exec(i, &r.cs.Ops[i])
-	}
-	if t.aborted {
-		return ""
-	}
-	t.twinFull = true
-	t.cur = t.snap()
-	if t.canon(t.cur) != canonBefore {
-		return ""
-	}
-	t.opIdx = idx
 	answers := map[string]bool{}
-	for k := 0; k < 24 && !t.aborted; k++ {
+	n := 0
+	for k := 0; k < 24; k++ {
+		t := lmNewRun(r.ctx, r.cs, true)
+		if t == nil {
+			return ""
+		}
+		t.twin = true
+		for i := 0; i < idx && !t.aborted; i++ {
+			t.exec(i, &r.cs.Ops[i])
+		}
+		if t.aborted {
+			continue
+		}
+		t.twinFull = true
+		t.cur = t.snap()
+		if t.canon(t.cur) != canonBefore {
+			continue
+		}
+		t.opIdx = idx
 		o, ok := t.doGetOffer(op)
+		if t.aborted {
+			continue
+		}
+		n++
 		if !ok {
 			answers["failure"] = true
 			continue
@@ -1162,7 +1168,7 @@ func (r *lmRun) sampleSameState(idx int, op *lmOp, canonBefore string) string {
 		answers[fmt.Sprintf("%x|%s", uint64(o.o.NodeMask()), t.canonUpd(o.o.Updates()))] = true
 	}
 	r.count("divergences_sampled_at_same_state")
-	if len(answers) > 1 {
+	if n >= 8 && len(answers) > 1 {
 		r.count("divergences_nondeterministic_at_same_state")
 		return ":nondeterministic-at-same-state"
 	}
@@ -1226,8 +1232,8 @@ func (r *lmRun) exec(idx int, op *lmOp) {
 		// left something behind that changes later results (or that the allocator is not deterministic).
 		same12 := ok1 == ok2 && (!ok1 || (z1 == o2.o.NodeMask() && lmUpdEq(u1, o2.o.Updates())))
 		same23 := ok2 == ok3 && (!ok2 || (o2.o.NodeMask() == zone && lmUpdEq(o2.o.Updates(), upd)))
-		// A divergence is classified before it is reported: if 24 GetOffer calls for the identical request on a fresh,
-		// identically driven allocator at this very state do not all give the same answer, the allocator itself is not
+		// A divergence is classified before it is reported: if 24 fresh, identically driven allocators asked once each
+		// for an offer for the identical request at this very state do not all give the same answer, the allocator itself is not
 		// a function of (state, request) here (map iteration order inside overcommit resolution) - that is a different
 		// defect from a GetOffer that leaves something behind or an offer path that differs from the allocation path.
 		nd := ""
